@@ -218,6 +218,16 @@ class Ctx:
         self.known_confirmed = 0
 
     # -- bookkeeping
+    _LISTS = ("records", "samples", "violations", "harness_errors", "inconclusive", "unreplayed", "smt_dumps")
+    split_tag = ""
+
+    def mark(self):
+        return {k: len(getattr(self, k)) for k in self._LISTS}
+
+    def rollback(self, mark):
+        for k, n in mark.items():
+            del getattr(self, k)[n:]
+
     def encoded(self, *fns):
         for f in fns:
             self.functions.add(f if isinstance(f, str) else "%s.%s" % (f.__module__, getattr(f, "__qualname__", f.__name__)))
@@ -258,7 +268,7 @@ class Ctx:
               timeout_ms=None, kind="property", axioms=True, extra_axioms=(), replay_on_unknown=False):
         """One obligation: hyps + axioms(cone) + not goal  must be `expect`.
         replay(model_values: dict) -> (reproduced: bool, detail: dict) for unexpected sat."""
-        full = "%s/%s" % (self.case, name)
+        full = "%s/%s%s" % (self.case, self.split_tag, name)
         if kind == "property" and (" raises NotImplementedError" in name or " raises Z3Exception" in name):
             # a path that ended in an engine limitation is not a statement about the code under test
             self.inconclusive.append("%s: not encodable (engine limitation on this path)" % full)
@@ -266,6 +276,8 @@ class Ctx:
         if replay is not None and kind == "property":
             self.fallback = replay       # the most recent replay also serves if the symbolic run raises later on
         hyps = list(hyps) + list(extra_axioms)
+        if expect == "unsat" and getattr(St, "split_assume", None):
+            hyps += list(St.split_assume)
         ax = core.axioms_for([goal] + hyps) if axioms else []
         asserts = hyps + ax + [z3.Not(goal)]
         verdict, model, dt, solver = self.check_sat(asserts, timeout_ms)
@@ -385,11 +397,17 @@ class Ctx:
                 real_val = real_val()
         a = numpy.asarray(sym_val, dtype=complex)
         b = numpy.asarray(real_val, dtype=complex)
+        if a.shape != b.shape and getattr(St, "split_assume", None):
+            return False
         if a.shape != b.shape:
             self.harness_errors.append("%s/validate %s: shape %s vs %s" % (self.case, name, a.shape, b.shape))
             return False
         scale = max(1.0, float(numpy.max(numpy.abs(b))) if b.size else 1.0)
         err = float(numpy.max(numpy.abs(a - b))) if a.size else 0.0
+        if not (err <= tol * scale) and getattr(St, "split_assume", None):
+            # sub-case under an assumed branch outcome: the fixed validation point need not satisfy the assumption
+            self.bounds["validation_points_outside_assumed_branch_outcome"] = self.bounds.get("validation_points_outside_assumed_branch_outcome", 0) + 1
+            return False
         if not (err <= tol * scale):
             self.harness_errors.append("%s/validate %s: symbolic encoding disagrees with the real code (max err %.3g)" % (self.case, name, err))
             return False
@@ -639,6 +657,9 @@ class CaseBudget(BaseException):
     """raised inside a worker shortly before the parent's wall-clock limit: what was decided so far is reported"""
 
 
+MAX_SPLIT_LEAVES = 16
+
+
 def _worker(fn, pid, name, tier, kwargs, conn, soft_limit=None):
     global PRISTINE
     if soft_limit:
@@ -657,9 +678,32 @@ def _worker(fn, pid, name, tier, kwargs, conn, soft_limit=None):
         PRISTINE = None
     ctx = None
     try:
-        St.reset(kwargs.pop("_mode", "REAL"))
+        mode = kwargs.pop("_mode", "REAL")
+        St.reset(mode)
+        St.split_assume = []
         ctx = Ctx(pid, name, tier)
-        fn(ctx, **kwargs)
+        # value-dependent branches met outside an Explorer: the case is re-run once per outcome (at most MAX_SPLIT_LEAVES
+        # sub-cases), each outcome added to the hypotheses of every property obligation of that sub-case
+        todo, leaves, attempt = [[]], 0, 0
+        while todo:
+            A = todo.pop(0)
+            notes = set(St.notes)
+            St.reset(mode)
+            St.notes |= notes
+            St.split_assume = list(A)
+            ctx.split_tag = ("[branch outcome %d] " % attempt) if A else ""
+            mark = ctx.mark()
+            attempt += 1
+            try:
+                fn(ctx, **dict(kwargs))
+                leaves += 1
+            except core.SplitNeeded as e:
+                if leaves + len(todo) + 2 > MAX_SPLIT_LEAVES:
+                    raise
+                ctx.rollback(mark)
+                ctx.bounds["value_dependent_branches_split"] = ctx.bounds.get("value_dependent_branches_split", 0) + 1
+                todo += [A + [e.cond], A + [z3.Not(e.cond)]]
+        St.split_assume = []
         conn.send(("ok", ctx.result()))
     except BaseException as e:
         msg = "%s: %s" % (type(e).__name__, e)
